@@ -590,3 +590,31 @@ SPECS["C13"] = {
          "limits": {"quick": {"timeout": "900s"}, "thorough": {"timeout": "3000s"}}},
     ],
 }
+
+SPECS["C20"] = {
+    "explanation": "Wired together for real and run under the engine's cooperative scheduler: extension.manager.Run (POST /register, start of the server goroutine, the 100 ms start-up "
+                   "window, then heartbeat: coordinator.Flush once, loop WaitForFlush -> GET /event/next until SHUTDOWN), the telemetry handler (a JSON batch with one runtimeDone record "
+                   "among other records -> coordinator.Flush), the real flush coordinator (capacity-1 notification channel), the real forwarder (consolidator with 1..2 slots, Run loop, "
+                   "MergeMaps / SplitByTags, postMetrics, notifyFlush, semaphores) and the real ingestion handler of the upstream server. Harness: the Lambda runtime API as the manager's "
+                   "http.RoundTripper (/register, long-polling /event/next that parks the heartbeat until the platform has an event, /init/error), the upstream transport with LATENCY - the "
+                   "request is in flight while every other goroutine that can run runs (verifYield inside RoundTrip) -, the function (0..2 datapoints with symbolic values per invocation) and "
+                   "the platform (telemetry batch of symbolic composition after each invocation). Asserted at the arrival of every GET /event/next: it is preceded by a flush (the initial "
+                   "one, then one per finished invocation), no upstream POST is in flight, and every datapoint dispatched before the latest runtime-done signal has been handled by the "
+                   "upstream server; between invocations the extension is waiting in GET /event/next; after SHUTDOWN and cancellation Run returns without error and /init/error was not "
+                   "called. InitError: a server that fails during start-up makes Run report exactly one /init/error, return an error and never ask for an event.",
+    "bounds": {"quick": "1 invocation (quick) with 0..2 datapoints, telemetry batches from three templates, consolidator slots 1..2, upstream always accepting", "thorough": "2 invocations"},
+    "outside": ["schedules other than 'run until blocked, latency = yield at the upstream transport, every multi-ready select forked': this is ONE family of interleavings, not all; pre-emption "
+                "between two statements of the same goroutine is not explored", "the net/http telemetry server, its gorilla/mux router and the telemetry subscription request (the harness "
+                "calls the real handler directly)", "upstream failures and retries during a flush (covered per request by C15)", "dynamic headers (documented as unsupported in Lambda mode; "
+                "cmd/lambda-extension sets the viper key 'dynamic-header', the forwarder reads 'http-transport.dynamic-headers' - reading note, viper is not executable by the engine)",
+                "JSON texts (stub: decoded by the host's encoding/json for concrete inputs)"],
+    "assumptions": STUBS_COMMON + [NET_STUBS, TIME_MODEL, "time.After / NewTimer pending until the harness advances time (verifTimersManual)", "jsoniter / encoding/json Decode-Unmarshal stubs for concrete texts; Encode/Marshal return a handle",
+                                   "runtime/debug.Stack returns a constant"],
+    "jobs": [
+        {"pkg": "./pkg/statsd", "harness": "pkg/statsd", "mode": "machine", "workers": 16,
+         "entries": {"quick": ["VerifC20_InitError", "VerifC20_1", "VerifC20_Twin"], "thorough": ["VerifC20_InitError", "VerifC20_1", "VerifC20_2", "VerifC20_Twin"]},
+         "reach": {"VerifC20_1": ["next", "done"], "VerifC20_2": ["next", "done"], "VerifC20_InitError": ["init-error"]},
+         "twin": {"VerifC20_Twin": True}, "blocked_is_violation": True,
+         "limits": {"quick": {"timeout": "900s"}, "thorough": {"timeout": "1800s"}}},
+    ],
+}
